@@ -250,7 +250,11 @@ func (s *Session) Run(ctx context.Context, dir string, args ...string) error {
 						log.Printf("ignoring %s", line)
 						continue
 					} else {
-						for _, output := range iop.OutputSet {
+						for i := range iop.OutputSet {
+							// Not a copy: what is recorded in
+							// Bindingss below must still be there
+							// for the next message.
+							output := &iop.OutputSet[i]
 							if output.Bindingss != nil {
 								continue
 							}
